@@ -194,6 +194,14 @@ def apply_edit(root, st):
             fh.write(bytes(data))
         if st.get("keep_mtime"):            # bit rot, cp -p, rsync -t: the bytes change, the time stamps do not
             os.utime(f, ns=(st0.st_atime_ns, st0.st_mtime_ns))
+    elif op == "leftover":
+        # what an interrupted run leaves in an ascmhl folder: temporary files of the writers (no reader may touch them)
+        d = os.path.join(root, st["hist"], "ascmhl")
+        if os.path.isdir(d):
+            with open(os.path.join(d, "0099_left_2020-01-01_000000Z.mhl.tmp"), "wb") as fh:
+                fh.write(b"<?xml version='1.0'?><hashlist")
+            with open(os.path.join(d, "ascmhl_chain.xml.tmp"), "wb") as fh:
+                fh.write(b"<?xml version='1.0'?><ascmhldirectory")
     elif op == "rmmanifest":
         h = os.path.join(root, st["hist"])
         gens = dict(impl.list_manifests(h))
